@@ -8,6 +8,8 @@ that reads a history of operations over three capsule variables:
     2 j   p => take_pool(cap(j))       (library pool, released by the pattern code)
     3 j   call cap(j)%delete()         (also used for "delete again")
     4 j   read through the last pointer obtained for capsule j (must still be valid)
+    5 j   a = peek_pool()              (library-owned table copied into an allocatable; free_pattern given but
+                                        owner(library): nothing may be released)
 
 ownership.yaml / regression/run/ownership/main.f use exactly this API
 (`intp1 => return_int_ptr_dim_pointer_new(cap)`, `call cap%delete()`), including
@@ -28,6 +30,7 @@ options:
 declarations:
 - decl: int *takeBuf(int *n +intent(out)+hidden) +dimension(n)+owner(caller)
 - decl: int *takePool(int *n +intent(out)+hidden) +dimension(n)+owner(caller)+free_pattern(giveback_pool)
+- decl: int *peekPool(int *n +intent(out)+hidden) +dimension(n)+deref(allocatable)+free_pattern(giveback_pool)
 - decl: int poolOutstanding()
 patterns:
   giveback_pool: |
@@ -38,6 +41,7 @@ HEADER = """#ifndef OWNLIB_HPP
 #define OWNLIB_HPP
 int *takeBuf(int *n);
 int *takePool(int *n);
+int *peekPool(int *n);
 int poolOutstanding();
 void vf_giveback(void *p);
 #endif
@@ -67,10 +71,19 @@ int *takePool(int *n)
     printf("TAKE pool %d\n", vf_serial); fflush(stdout);
     return p;
 }
+static int vf_library_table[4] = {7, 8, 9, 10};
+int *peekPool(int *n)
+{
+    /* memory the library keeps (owner(library) is the default): the caller gets a copy */
+    *n = 4;
+    printf("PEEK\n"); fflush(stdout);
+    return vf_library_table;
+}
 int poolOutstanding() { return vf_out; }
 void vf_giveback(void *p)
 {
     if (p == NULL) { printf("GIVEBACK NULL\n"); fflush(stdout); return; }
+    if (p == (void *) vf_library_table) { printf("GIVEBACK LIBRARY-OWNED\n"); fflush(stdout); return; }
     --vf_out;
     printf("GIVEBACK %d\n", ((int *) p)[0] / 100); fflush(stdout);
     delete[] (int *) p;
@@ -110,6 +123,12 @@ subroutine vf_run()
       call cap2%delete()
     case (33)
       call cap3%delete()
+    case (51, 52, 53)
+      block
+        integer(C_INT), allocatable :: a(:)
+        a = peek_pool()
+        print '(A,I0,A,I0)', "COPY ", size(a), " ", a(1)
+      end block
     case (41)
       print '(A,I0,A,I0)', "READ ", size(p1), " ", p1(1) / 100
     case (42)
@@ -211,6 +230,8 @@ def model(ops):
             release(j)
         elif op == 4:
             lines.append("READ %d %d" % (sizes[ptr[j][1]], ptr[j][1]))
+        elif op == 5:
+            lines += ["PEEK", "COPY 4 7"]       # a copy of library-owned memory: nothing is given back
         out = sum(1 for h in caps.values() if h is not None and h[0] == "pool")
         lines.append("OUT %d" % out)
     for j in (1, 2, 3):
